@@ -9,8 +9,8 @@ Local Open Scope nat_scope.
 
 Definition single (o : op) : Prop :=
   match o with
-  | AddNodes _ xs => length xs <= 1
-  | AddEdges _ es => length es <= 1
+  | AddNodes _ xs _ _ => length xs <= 1
+  | AddEdges _ es _ => length es <= 1
   | RemoveNodes _ xs => length xs <= 1
   | AddCpds _ cs => length cs <= 1
   | RemoveCpds _ xs => length xs <= 1
@@ -29,6 +29,10 @@ Definition late_reject (s : state) (o : op) : Prop :=
 Lemma commit_same s a m : nth_error (ms s) a = Some m -> commit s a m = s.
 Proof. intros H. unfold commit, set_ms. rewrite (upd_same _ _ _ H). destruct s; reflexivity. Qed.
 Lemma set_bg_same m : set_bg m (bg m) = m.
+Proof. destruct m; reflexivity. Qed.
+Lemma log_nw_nil m : log_nw m [] = m.
+Proof. destruct m; reflexivity. Qed.
+Lemma log_ew_nil m : log_ew m [] = m.
 Proof. destruct m; reflexivity. Qed.
 
 Lemma children_absent g x : wf_graph g -> ~ In x (nodes g) -> children g x = [].
@@ -57,15 +61,21 @@ Qed.
 Lemma rejected_op_no_change s o e :
   good s -> single o -> ~ late_reject s o -> snd (step s o) = Err e -> fst (step s o) = s.
 Proof.
-  intros Hg Hs Hl. destruct o as [eb lat|a xs|a es|a xs|a cs|a xs|a cs|a xs ip|a|a isd ns dr ip]; simpl in *.
+  intros Hg Hs Hl. destruct o as [eb lat|a xs ws lat|a es ws|a xs|a cs|a xs|a cs|a xs ip|a|a isd ns dr ip]; simpl in *.
   - destruct (bn_add_edges_g g_empty eb) as [g o1]. destruct o1; [|reflexivity].
     destruct (acyclicb g); [simpl; discriminate|reflexivity].
-  - destruct (nth_error (ms s) a) as [m|]; [|reflexivity].
-    destruct (m_add_nodes s m xs). simpl. discriminate.
   - destruct (nth_error (ms s) a) as [m|] eqn:En; [|reflexivity].
+    destruct (wlen_bad (length xs) ws); [reflexivity|].
+    destruct xs as [|x [|x2 r]]; simpl in Hs; [| |lia].
+    + destruct lat; simpl; discriminate.
+    + destruct lat as [|b lt].
+      * simpl. intros _. rewrite log_nw_nil. apply commit_same. exact En.
+      * cbn [combine m_add_nodes]. destruct (m_add_node s m (x, b)) as [s1 m1]. simpl. discriminate.
+  - destruct (nth_error (ms s) a) as [m|] eqn:En; [|reflexivity].
+    destruct (wlen_bad (length es) ws); [reflexivity|].
     destruct es as [|[u v] [|e2 r]]; simpl in *; [discriminate| |lia].
     destruct (bn_add_edge_g (bg m) u v); simpl; [discriminate|]. intros _.
-    rewrite set_bg_same. apply commit_same. exact En.
+    rewrite set_bg_same, log_ew_nil. apply commit_same. exact En.
   - destruct (nth_error (ms s) a) as [m|] eqn:En; [|reflexivity].
     destruct xs as [|x [|x2 r]]; simpl in *; [discriminate| |lia].
     assert (Hx : ~ In x (nodes (bg m))).
@@ -191,11 +201,13 @@ Qed.
 
 Lemma step_cells_ok s o : good s -> cells_ok s -> op_ok o -> cells_ok (fst (step s o)).
 Proof.
-  intros Hg Hc Ho. destruct o as [eb lat|a xs|a es|a xs|a cs|a xs|a cs|a xs ip|a|a isd ns dr ip]; simpl in *.
+  intros Hg Hc Ho. destruct o as [eb lat|a xs ws lat|a es ws|a xs|a cs|a xs|a cs|a xs ip|a|a isd ns dr ip]; simpl in *.
   - destruct (bn_add_edges_g g_empty eb) as [g o1]. destruct o1; [|exact Hc]. destruct (acyclicb g); exact Hc.
-  - destruct (nth_error (ms s) a) as [m|]; [|exact Hc]. destruct (m_add_nodes s m xs) as [s' m'] eqn:E.
+  - destruct (nth_error (ms s) a) as [m|]; [|exact Hc]. destruct (wlen_bad (length xs) ws); [exact Hc|].
+    destruct (m_add_nodes s m (combine xs lat)) as [s' m'] eqn:E.
     simpl. exact (m_add_nodes_cells _ _ _ _ _ Hc E).
-  - destruct (nth_error (ms s) a) as [m|]; [|exact Hc]. destruct (bn_add_edges_g (bg m) es). exact Hc.
+  - destruct (nth_error (ms s) a) as [m|]; [|exact Hc]. destruct (wlen_bad (length es) ws); [exact Hc|].
+    destruct (bn_add_edges_g (bg m) es). exact Hc.
   - destruct (nth_error (ms s) a) as [m|]; [|exact Hc]. destruct (m_remove_nodes s m xs) as [[s' m'] o1] eqn:E.
     simpl. exact (m_remove_nodes_cells _ _ _ _ _ _ Hc E).
   - destruct (nth_error (ms s) a) as [m|]; [|exact Hc]. destruct (m_add_cpds s m cs) as [[s' m'] o1] eqn:E.
@@ -282,7 +294,7 @@ Theorem rejected_op_no_change_full s o e :
   good s -> cells_ok s -> single o -> snd (step s o) = Err e -> fst (step s o) = s.
 Proof.
   intros Hg Hc Hs.
-  destruct o as [eb lat|a xs|a es|a xs|a cs|a xs|a cs|a xs ip|a|a isd ns dr ip];
+  destruct o as [eb lat|a xs ws lat|a es ws|a xs|a cs|a xs|a cs|a xs ip|a|a isd ns dr ip];
     try (apply rejected_op_no_change; [exact Hg|exact Hs|exact (fun H => H)]).
   - (* remove_node *)
     destruct (nth_error (ms s) a) as [m|] eqn:En; [|simpl; rewrite En; intros _; reflexivity].
